@@ -190,6 +190,7 @@ struct Case
     std::string desc;
     bool nontrivial = false;
     bool want_desc = true;
+    uint64_t work = 0; // inner executions a case stands for (e.g. schedules explored); summed into work_units
     std::vector<const char *> labels;
     std::vector<const char *> known_hits;
 
